@@ -628,3 +628,12 @@ def run(res, facts, tier):
     _run_c09_prev7(res, facts, tier)
     from . import c02_parse
     c02_parse.run_pattern_rule(res, facts, tier)
+
+
+_run_c09_prev8 = run
+
+
+def run(res, facts, tier):
+    _run_c09_prev8(res, facts, tier)
+    from . import c09_match
+    c09_match.run_rule(res, facts, tier)
